@@ -60,6 +60,46 @@ def lengths_module(rng, cyclic):
     return ['const A: usize = |:S|;\n\n', 'struct S\n{\n\tt: T,\n}\n\n', 'struct T\n{\n\ta: [A]i32,\n}\n\n']
 
 
+POOL = [
+    'const A: i32 = 1;\n\n', 'const B: i32 = A + 1;\n\n', 'const Pixel: i32 = 3;\n\n', 'const LEN: usize = 2;\n\n',
+    'struct Pixel\n{\n\tx: i32,\n}\n\n', 'struct Sprite\n{\n\tp: Pixel,\n\tn: i32,\n}\n\n', 'struct Row\n{\n\tcells: [LEN]i32,\n}\n\n',
+    'fn f() -> i32\n{\n\treturn: A + B\n}\n\n', 'fn g(s: Sprite) -> i32\n{\n\treturn: s.n\n}\n\n', 'fn h() -> i32\n{\n\treturn: Pixel\n}\n\n',
+    'fn k() -> i32\n{\n\tvar p: Pixel = Pixel { x: 1 };\n\treturn: p.x + f()\n}\n\n', 'fn main() -> i32\n{\n\treturn: f()\n}\n\n',
+    # duplicates (rejected, in every order)
+    'const A: i32 = 5;\n\n', 'fn f() -> i32\n{\n\treturn: 2\n}\n\n', 'struct Pixel\n{\n\ty: i32,\n}\n\n',
+]
+
+
+def invariance_search(deadline, rng, modules=40, orders=8):
+    """metamorphic reading of the property: every permutation of the top-level declarations of a module is accepted or rejected
+    alike (no expected verdict is assumed; constants, structures and functions that share names, miss their dependencies
+    or are duplicated are all included)"""
+    for _ in range(modules):
+        # declarations that can interact share a theme (a name, a dependency); one or two themes per module
+        themes = [[2, 4, 5, 8, 9, 10, 14], [0, 1, 7, 11, 12, 13], [3, 6, 0, 7], [4, 5, 8, 10, 7, 0, 1]]
+        pool = sorted(set(i for t in rng.sample(themes, rng.randint(1, 2)) for i in t))
+        decls = [POOL[i] for i in rng.sample(pool, min(len(pool), rng.randint(2, 6)))]
+        perms = list(itertools.permutations(decls))
+        rng.shuffle(perms)
+        seen = {}
+        for order in perms[:orders]:
+            if time.time() > deadline:
+                return None
+            src = ''.join(order)
+            r = replayrun.run('alpha', src.encode(), timeout=20)
+            if r.get('status') in ('timeout', 'build-failed', 'unknown'):
+                continue
+            verdict = 'accepted' if (r.get('status') == 'ok' and r['result'].get('errors') == '[]') else 'rejected'
+            seen.setdefault(verdict, (src, r))
+            if len(seen) > 1:
+                (s1, r1), (s2, r2) = seen['accepted'], seen['rejected']
+                return {'mode': 'alpha', 'input_utf8_lossy': s2, 'input_hex': s2.encode().hex(), 'observed': r2,
+                        'expected': 'accepted, like this permutation of the same declarations: ' + s1.replace('\n', ' ')[:600],
+                        'expect_same_verdict_as': {'input': s1, 'verdict': 'accepted'},
+                        'how': 'replay_runner alpha <file> on two permutations of the same top-level declarations'}
+    return None
+
+
 CYCLE_CODES = ('413', '415', '416')
 
 
